@@ -174,6 +174,7 @@ Fixpoint parse_plan (s : bytes) : list directive :=
   match s with
   | [] => []
   | x66 :: r => DFail :: parse_plan r      (* f *)
+  | x70 :: r => DFail :: parse_plan r      (* p: the dependency panics; baseapp recovers, the transaction fails like on an error *)
   | x73 :: r => DSucceed :: parse_plan r   (* s *)
   | _ :: r => DDefault :: parse_plan r     (* d *)
   end.
